@@ -44,12 +44,12 @@ theorem PIPE_dispatch_table :
     parse tree of its text (operators as FUNCALL nodes through the generated registry, unary sign
     nodes, `abs( )`…`float( )` calls) returns exactly what the C01 model `evalA` returns — the same
     number of the same kind, or the same error class — and leaves the session untouched. -/
-theorem PIPE_arith (t : AExp) (env : Env) :
+theorem PIPE_arith (t : AExp) (env : Env) (hpm : powersModelled t = true) :
     evalAst env (embed t) =
       match evalA t with
       | .ok v => .ok (.num v, env)
       | .error e => .error (.err e) := by
-  have h := evalStmt_embed t env
+  have h := evalStmt_embed t env hpm
   have hp : runProgram env (embed t) = (env, liftN (evalA t)) := by
     cases t with
     | lit n => exact h
@@ -60,28 +60,34 @@ theorem PIPE_arith (t : AExp) (env : Env) :
   rw [hp]
   cases evalA t <;> rfl
 
+/-- … and without the hypothesis on the powers the unified evaluator still never gives a *different*
+    answer: it agrees with `evalA` or declares the huge power outside the model. -/
+theorem PIPE_arith_or_refuses (t : AExp) (env : Env) :
+    evalE env (embed t) = liftN (evalA t) ∨ evalE env (embed t) = .error (.unmodelled "huge power") :=
+  evalE_embed_or t env
+
 /-- C01's exactness theorem, for the unified evaluator: whenever the mathematical reading of the
     expression is the rational `q`, evaluating its parse tree delivers `q` in canonical form
     (an int when integral, otherwise the reduced Fraction) — never a float. -/
-theorem PIPE_arith_exact (t : AExp) (q : Rat) (h : den t = .val q) (env : Env) :
+theorem PIPE_arith_exact (t : AExp) (q : Rat) (h : den t = .val q) (env : Env) (hpm : powersModelled t = true) :
     evalAst env (embed t) = .ok (.num (Num.canon q), env) := by
-  rw [PIPE_arith, C01_exact t q h]
+  rw [PIPE_arith t env hpm, C01_exact t q h]
 
 /-- **From the text's tokens to the printed line.**  Write a C01 expression with only the
     required parentheses, with every sub-expression parenthesised, or with redundant parentheses
     around any chosen sub-expressions: `execute` from the token list on (parse, evaluate, reduce,
     display) prints the display text of `evalA`'s value, or diagnoses `evalA`'s error class; the
     session is unchanged.  (Composition of `C02_redundant_parens` with `PIPE_arith`.) -/
-theorem PIPE_text_arith (t : AExp) (env : Env) (extra : Ast → Bool) :
+theorem PIPE_text_arith (t : AExp) (env : Env) (extra : Ast → Bool) (hpm : powersModelled t = true) :
     runTokens env (renderWith extra (.stmts [embed t])) = (env, numOutcome (evalA t)) := by
   simp only [runTokens, C02_redundant_parens _ (wf_program_embed t) extra]
-  exact runTree_embed t env
+  exact runTree_embed t env hpm
 
 /-- the two standard renderings -/
-theorem PIPE_text_arith_min_full (t : AExp) (env : Env) :
+theorem PIPE_text_arith_min_full (t : AExp) (env : Env) (hpm : powersModelled t = true) :
     runTokens env (renderMin (.stmts [embed t])) = (env, numOutcome (evalA t)) ∧
     runTokens env (renderFull (.stmts [embed t])) = (env, numOutcome (evalA t)) :=
-  ⟨PIPE_text_arith t env noExtra, PIPE_text_arith t env allExtra⟩
+  ⟨PIPE_text_arith t env noExtra hpm, PIPE_text_arith t env allExtra hpm⟩
 
 /-- `parse_tokens` looks at tags and metadata only (positions matter to the error marker alone) -/
 theorem parse_view_congr {toks toks' : List Token} (h : toks.map PTok.ofToken = toks'.map PTok.ofToken) :
@@ -94,14 +100,14 @@ theorem parse_view_congr {toks toks' : List Token} (h : toks.map PTok.ofToken = 
     a rendering of the C01 expression — whatever its whitespace; C11's whitespace-insertion theorem
     produces all of them from one — makes `execute` print `evalA`'s value / diagnose `evalA`'s error. -/
 theorem PIPE_text_arith_lexed (t : AExp) (env : Env) (extra : Ast → Bool) (s : List Char) (toks : List Token)
-    (hs : s.all Lexer.inAlphabet = true) (hlex : Lexer.tokenise s = .ok toks)
-    (hview : toks.map PTok.ofToken = rNat extra (.stmts [embed t])) :
+    (hs : s.all Lexer.inAlphabet = true) (hx : hugeExponent s = false) (hlex : Lexer.tokenise s = .ok toks)
+    (hview : toks.map PTok.ofToken = rNat extra (.stmts [embed t])) (hpm : powersModelled t = true) :
     runIn env s = (env, numOutcome (evalA t)) := by
   have hp : parse toks = parse (renderWith extra (.stmts [embed t])) :=
     parse_view_congr (by rw [hview, renderWith, toTokens, map_ofToken_toToken])
-  have h := PIPE_text_arith t env extra
+  have h := PIPE_text_arith t env extra hpm
   simp only [runTokens] at h
-  simp only [runIn, hs, hlex, runTokens, hp, Bool.not_true, Bool.false_eq_true, if_false]
+  simp only [runIn, hs, hx, hlex, runTokens, hp, Bool.not_true, Bool.false_eq_true, if_false]
   rw [C02_redundant_parens _ (wf_program_embed t) extra] at h ⊢
   exact h
 
@@ -161,6 +167,9 @@ example : (evalA sampleA).toOption.map Num.render = some "q:-11/4" := by decide 
 example : (renderMin (.stmts [embed sampleA])).map (·.tag.render) =
     ["(", "number", "+", "number", ")", "*", "number", "/", "number", "-", "identifier", "(", "-", "number", ")"] := by decide
 example : (numOutcome (evalA sampleA)).render = "ok -2 3/4     (-2.75)\n" := by decide +kernel
+/-- `powersModelled` holds for ordinary powers and fails only for astronomically large ones -/
+example : powersModelled (.bin .pow (.lit 7) (.lit 1000)) = true ∧ powersModelled sampleA = true
+    ∧ powersModelled (.bin .pow (.lit 7) (.sci 1 30)) = false := by decide +kernel
 
 /-- `(1 + 2) * 3`, and the tokens of the text `( 1+2 ) *3` -/
 private def sampleB : AExp := .bin .mul (.bin .add (.lit 1) (.lit 2)) (.lit 3)
@@ -169,7 +178,8 @@ private def toksB : List Token := [⟨.const "(", 0, 1, .none⟩, ⟨.num, 2, 3,
 set_option maxRecDepth 100000 in
 /-- hypotheses of `PIPE_text_arith_lexed` are satisfiable: a text with irregular whitespace -/
 example : Lexer.tokenise "( 1+2 ) *3".toList = .ok toksB ∧ toksB.map PTok.ofToken = rNat noExtra (.stmts [embed sampleB])
-    ∧ "( 1+2 ) *3".toList.all Lexer.inAlphabet = true := ⟨by rfl, by rfl, by decide +kernel⟩
+    ∧ "( 1+2 ) *3".toList.all Lexer.inAlphabet = true ∧ hugeExponent "( 1+2 ) *3".toList = false
+    ∧ powersModelled sampleB = true := ⟨by rfl, by rfl, by decide +kernel, by decide +kernel, by decide +kernel⟩
 
 /-- hypotheses of `PIPE_statements` are satisfiable: `x = 2; y = x * 3; x + y` -/
 example : ∀ s ∈ [Session.Stmt.assign "x" (.lit 2), .assign "y" (.mul (.var "x") (.lit 3)), .expr (.add (.var "x") (.var "y"))],
